@@ -175,6 +175,53 @@ class Coverage:
         return True
 
 
+REUSE_TEXTS = ["a: 'x' ;\n\nb: a 'y' ;\n", "@@keyword :: if\n\nstart: b $ ;\n\nb: 'z' ;\n", "a: 'x' ;\n\nb: a ( ;\n", "a: 'x' ;\n\na: 'y' ;\n", "c[T]: {'w'}+ ;\n"]
+
+
+def reuse_part(rc):
+    """One reader object used for several texts in a row, each with its own new semantics object: every text gives what a new
+    reader object gives for it, whatever was read before and however that ended."""
+    import itertools
+    import tatsu
+    from tatsu.boot.bootstrap import TatSuBootstrapParser as P1cls
+    from tatsu.exceptions import ParseException
+    from tatsu.ngcodegen.ngparser_gen import pythongen
+    from tatsu.peg import GrammarSemantics
+    from .. import impl
+    _rs, p3model = get_readers()
+    src = pythongen(p3model, parser_name='TatSuBootstrap')
+    ns: dict = {'__name__': 'regenerated_bootstrap_reuse'}
+    exec(compile(src, '<regenerated bootstrap>', 'exec'), ns)
+
+    def read(parser, text):
+        try:
+            with contextlib.redirect_stderr(io.StringIO()):
+                g = parser.parse(text, semantics=GrammarSemantics(name='G'))
+            return ('ok', json.dumps(g.asjson(), sort_keys=True, default=repr))
+        except ParseException:
+            return ('fail', 'parse-exception')
+        except Exception as e:  # noqa
+            return ('exc', type(e).__name__)
+
+    n = 0
+    for rname, cls in (('P1-shipped-bootstrap.py', P1cls), ('P4-regenerated-bootstrap', ns['TatSuBootstrapParser'])):
+        fresh = {t: read(cls(), t) for t in REUSE_TEXTS}
+        for seq in itertools.product(REUSE_TEXTS, repeat=3):
+            parser = cls()
+            for step, t in enumerate(seq):
+                got = read(parser, t)
+                n += 1
+                rc.add('evaluations')
+                rc.add('transitions')
+                if step:
+                    rc.add('nontrivial')
+                if got != fresh[t]:
+                    rc.violation(f'reused-reader-object/differs-from-a-new-reader/{rname}', texts=list(seq), step=step,
+                                 got=[got[0], got[1][:200]], want=[fresh[t][0], fresh[t][1][:200]])
+                    break
+    rc.coverage['reader_reuse_reads'] = n
+
+
 _READERS = None
 
 
@@ -233,6 +280,7 @@ def grammar_rule_names():
 def run(rc):
     import tatsu
     quick = rc.tier == 'quick'
+    reuse_part(rc)
     ebnf = (Path(tatsu.__file__).parent / '_tatsu.ebnf').read_text()
     corpus = [(f'syntax/{k}', v) for k, v in SYNTAX.items()] + [(f'feature/{k}', v) for k, v in c13.FEATURES.items()] + \
              [(f'invalid/{k}', v) for k, v in INVALID.items()] + [(f'seed/{i}', s) for i, s in enumerate(c08.SEEDS)] + [('self', ebnf)]
